@@ -538,6 +538,9 @@ void SmootherGive::smoothingForLoop(Vector<double>& x, const Vector<double>& rhs
         /* Multi-threaded execution */
         const int num_circle_tasks = grid_.numberSmootherCircles();
         const int num_radial_tasks = grid_.ntheta();
+        /* If ntheta % 4 == 2, the last radial line of the stride-4 sections "Part 1" gives to the same neighbouring
+           line as the first one (periodicity): that line is handled in a section of its own. */
+        const int num_radial_tasks_part1 = (num_radial_tasks % 4 == 2) ? num_radial_tasks - 2 : num_radial_tasks;
 
         #pragma omp parallel
         {
@@ -609,7 +612,12 @@ void SmootherGive::smoothingForLoop(Vector<double>& x, const Vector<double>& rhs
             /* Asc ortho Black Radial Tasks */
             /* Outside Black Section (Part 1) */
             #pragma omp for
-            for (int radial_task = 1; radial_task < num_radial_tasks; radial_task += 4) {
+            for (int radial_task = 1; radial_task < num_radial_tasks_part1; radial_task += 4) {
+                int i_theta = radial_task;
+                applyAscOrthoRadialSection(i_theta, SmootherColor::Black, x, rhs, temp);
+            }
+            #pragma omp for
+            for (int radial_task = num_radial_tasks_part1 + 1; radial_task < num_radial_tasks; radial_task += 4) {
                 int i_theta = radial_task;
                 applyAscOrthoRadialSection(i_theta, SmootherColor::Black, x, rhs, temp);
             }
@@ -655,7 +663,12 @@ void SmootherGive::smoothingForLoop(Vector<double>& x, const Vector<double>& rhs
             }
             /* Outside White Section (Part 1) */
             #pragma omp for
-            for (int radial_task = 0; radial_task < num_radial_tasks; radial_task += 4) {
+            for (int radial_task = 0; radial_task < num_radial_tasks_part1; radial_task += 4) {
+                int i_theta = radial_task;
+                applyAscOrthoRadialSection(i_theta, SmootherColor::White, x, rhs, temp);
+            }
+            #pragma omp for
+            for (int radial_task = num_radial_tasks_part1; radial_task < num_radial_tasks; radial_task += 4) {
                 int i_theta = radial_task;
                 applyAscOrthoRadialSection(i_theta, SmootherColor::White, x, rhs, temp);
             }
